@@ -158,7 +158,7 @@ func c17Sched(sh *explore.Shard) {
 		}
 		ex.Run()
 		sh.C.Evals += ex.Executions
-		sh.C.Nontrivial += ex.Executions
+		sh.C.Nontrivial += ex.Deviating
 		sh.C.Transitions += ex.Transitions
 		sh.C.States += int64(len(outcomes))
 		for o := range outcomes {
@@ -416,6 +416,52 @@ func c17Strace(sh *explore.Shard, dir, work string, args []string, idx int64) {
 	}
 }
 
+// c17Replay re-executes one recorded schedule of a pipeline body.
+func c17Replay(caseJSON []byte) (string, error) {
+	var c struct {
+		Body     string `json:"body"`
+		Schedule []int  `json:"schedule"`
+	}
+	if err := json.Unmarshal(caseJSON, &c); err != nil {
+		return "", err
+	}
+	if c.Body == "" {
+		return "", ErrUseWorker
+	}
+	install()
+	for _, b := range c17Bodies("thorough") {
+		if b.name != c.Body {
+			continue
+		}
+		sc := &gen.Scenario{Repo: b.repo}
+		var res inproc.Result
+		body := func() {
+			plan := b.plan
+			res = inproc.Scan(modelgit.NewEnv(b.repo, &plan), inproc.SimpleGrouper{Walk: sc.Walks}, nil, sizes.NameStyleFull, nil)
+		}
+		verifsched.Run(body, nil, verifsched.Sched{})
+		j0, _ := json.Marshal(res.HS)
+		x := verifsched.Run(body, c.Schedule, verifsched.Sched{})
+		j1, _ := json.Marshal(res.HS)
+		switch {
+		case x.Diverged != "":
+			return "", fmt.Errorf("the recorded schedule does not fit the current code: %s", x.Diverged)
+		case x.PanicValue != nil || res.Panic != nil:
+			return fmt.Sprintf("panic: %v %v", x.PanicValue, res.Panic), nil
+		case x.Deadlock:
+			return "deadlock", nil
+		case b.fault && res.Err == nil:
+			return "a git subprocess failed but the scan returned a result under this schedule", nil
+		case !b.fault && res.Err != nil:
+			return "the scan failed under this schedule: " + res.Err.Error(), nil
+		case !b.fault && string(j0) != string(j1):
+			return fmt.Sprintf("the result under the recorded schedule differs from the default schedule's:\n%s\n---\n%s", j0, j1), nil
+		}
+		return "", nil
+	}
+	return "", fmt.Errorf("unknown body %q", c.Body)
+}
+
 func c17Worker(sh *explore.Shard) {
 	c17Sched(sh)
 	c17ReadOnly(sh)
@@ -447,7 +493,7 @@ func c17Parent(prop, tier string) int {
 }
 
 func init() {
-	Registry["C17"] = &Check{Level: "model_checking", Worker: c17Worker, Parent: c17Parent, QuickBudget: 90 * time.Second, ThoroughBudget: 15 * time.Minute,
-		Rule:        "(part 2, deciding determinism over schedules) the real ScanRepositoryUsingGraph, CollectReferences, obj_iter.go, batch_obj_iter.go, ref_iter.go and the verbatim go-pipe pipeline/function/scanner code, mechanically rewritten from their current text so that every mutex, atomic, channel operation, select, close, context cancellation, go statement and pipe read/write is a scheduling point; threads: main, the two feeder goroutines, every pipeline stage goroutine and the model git processes; ALL schedules with at most 2 (quick; 1 for the fault bodies) / 3 (thorough) deviations from the default schedule for 3 fault-free bodies (whole records; 7-byte writes with per-record flushing; 1030 blobs with two equal maxima, bound 1) and 6 single-fault bodies; oracle: every schedule yields the same HistorySize JSON (numbers = oracle, same cited objects and descriptions), no deadlock, no panic, and with a fault an error in every schedule. (part 1, read-only) real binary + real git: 3 repositories (one with root trees above 64 kiB in consecutive commits) x 7 argument vectors (one with three ROOT arguments) x 8 addressing modes: snapshot (mode, size, mtime-ns, SHA-256) of git dir, work tree, index and linked worktree identical before and after; 6 repeated runs with GOMAXPROCS 1..16 give byte-identical stdout; thorough additionally traces the run with strace -f and rejects any successful write-type system call on a path inside the repository; the git commands issued (model git log) stay within the read-only plumbing whitelist; auxiliary: 3 free-running runs per case of a -race build (a report is a violation, silence is not evidence). states = distinct observations over schedules; transitions = scheduling steps",
+	Registry["C17"] = &Check{Level: "model_checking", Worker: c17Worker, Parent: c17Parent, ReplayExe: "/verif/.build/vcheck-sched", Replay: c17Replay, QuickBudget: 90 * time.Second, ThoroughBudget: 15 * time.Minute,
+		Rule:        "(part 2, deciding determinism over schedules) the real ScanRepositoryUsingGraph, CollectReferences, obj_iter.go, batch_obj_iter.go, ref_iter.go and the verbatim go-pipe pipeline/function/scanner code, mechanically rewritten from their current text so that every mutex, atomic, channel operation, select, close, context cancellation, go statement and pipe read/write is a scheduling point; threads: main, the two feeder goroutines, every pipeline stage goroutine and the model git processes; ALL schedules with at most 2 (quick; 1 for the fault bodies) / 3 (thorough) deviations from the default schedule for 3 fault-free bodies (whole records; 7-byte writes with per-record flushing; 1030 blobs with two equal maxima, bound 1) and 6 single-fault bodies; oracle: every schedule yields the same HistorySize JSON (numbers = oracle, same cited objects and descriptions), no deadlock, no panic, and with a fault an error in every schedule. (part 1, read-only) real binary + real git: 3 repositories (one with root trees above 64 kiB in consecutive commits) x 7 argument vectors (one with three ROOT arguments) x 8 addressing modes: snapshot (mode, size, mtime-ns, SHA-256) of git dir, work tree, index and linked worktree identical before and after; 6 repeated runs with GOMAXPROCS 1..16 give byte-identical stdout; thorough additionally traces the run with strace -f and rejects any successful write-type system call on a path inside the repository; the git commands issued (model git log) stay within the read-only plumbing whitelist; auxiliary: 3 free-running runs per case of a -race build (a report is a violation, silence is not evidence). states = distinct observations over schedules; transitions = scheduling steps; non-trivial = executions whose schedule contains at least one deviation, plus read-only cases",
 		Assumptions: []string{"race-freedom is not decided by schedule enumeration (scheduling points sit at synchronisation operations); repeated free-running runs are sampling and are reported as such", "the model git processes are threads whose only interaction is through their pipes"}}
 }
